@@ -7,6 +7,7 @@ import HttpcoreModel.Drv.Est
 import HttpcoreModel.Drv.C15
 import HttpcoreModel.Drv.H2
 import HttpcoreModel.Drv.Unasync
+import HttpcoreModel.Drv.Sys
 /-!
 Line-protocol driver: one case per input line, one answer per output line.
 First token selects the model function.  Imports model files only (no proofs, no Mathlib).
@@ -33,12 +34,14 @@ def dispatch (line : String) : String :=
     else if cmd = "h2goaway" then Drv.h2goaway args
     else if cmd = "h2recv" then Drv.h2recv args
     else if cmd = "unasync" then Drv.unasyncCmd args
+    else if cmd = "sysreach" then Drv.SysD.sysreach args
     else "bad-cmd"
 
 partial def loop (h : IO.FS.Stream) (out : IO.FS.Stream) : IO Unit := do
   let line ← h.getLine
   if line.isEmpty then return ()
   out.putStrLn (dispatch line)
+  out.flush
   loop h out
 
 def main : IO Unit := do
